@@ -79,10 +79,11 @@ func (ex *Exec) verifyTop() {
 	vc.assume(Gt(st.top, IntLit(0)))
 	fr := ex.newFrame(fn, nil, "")
 	fr.depth = 0
-	for _, prm := range fn.Params {
+	for i, prm := range fn.Params {
 		v := ex.paramVal(prm.Name(), prm.Type(), st)
 		fr.regs[prm] = v
 		fr.params[prm.Name()] = v
+		ex.aliasName(fr.params, fn, ex.prog.recordedParam(fn, i), prm.Name(), v)
 	}
 	if len(fn.FreeVars) > 0 {
 		panic(unsupported("closure %s verified on its own", fn))
@@ -214,6 +215,7 @@ func (ex *Exec) verifyTop() {
 		if rv.Name() != "" && rv.Name() != "_" {
 			rvars[rv.Name()] = results[i]
 		}
+		ex.aliasName(rvars, fn, ex.prog.recordedResult(fn, i), rv.Name(), results[i])
 	}
 	if sig.Results().Len() == 1 {
 		rvars["result"] = results[0]
@@ -508,4 +510,16 @@ func usesRecover(fn *ssa.Function) bool {
 		}
 	}
 	return false
+}
+
+// aliasName lets a contract keep using the recorded name of a parameter or result that has been renamed.
+func (ex *Exec) aliasName(vars map[string]Val, fn *ssa.Function, recorded, current string, v Val) {
+	if recorded == "" || recorded == "_" || recorded == current {
+		return
+	}
+	if _, taken := vars[recorded]; taken {
+		return
+	}
+	vars[recorded] = v
+	ex.vc.Assumptions[fmt.Sprintf("%s of %s is what the contract calls %s (matched by recorded position)", current, fn.Name(), recorded)] = true
 }
